@@ -38,7 +38,10 @@ pub const IMMEDIATE_ACK_EVERY_RMSS: usize = 2;
 pub const SYNACK_RESEND_INTERNAL: Duration = Duration::from_millis(200);
 
 // u16 SeqNrs wrap around. If they are too far apart, this is used to detect if they wrapped or not.
-pub const WRAP_TOLERANCE: u16 = 1024;
+// Half the sequence space: receive buffers / windows of more than 1024 packets are allowed
+// (the default 1 MiB buffer holds 1985 packets of 528 bytes), and every pair of live sequence
+// numbers must compare by modular distance.
+pub const WRAP_TOLERANCE: u16 = 32767;
 
 pub const CONGESTION_TRACING_LOG_LEVEL: Level = Level::DEBUG;
 pub const RTTE_TRACING_LOG_LEVEL: Level = Level::TRACE;
